@@ -16,6 +16,14 @@
 // a scalar option given several times with different values may yield any of the given values (the help
 // text does not say which occurrence wins; which one won is recorded as an evidence counter);
 // unknown options / out-of-domain values are not *required* to be rejected (the property does not say so).
+//
+// Environment as a workload dimension: the only input of the parser besides argv is the millisecond clock
+// (default shuffle seed). Every case runs under a pinned GetPlatformSpecificTimeInMillis seam whose reading is
+// part of the case (realistic values, the 32-bit truncation lattice m*2^32+d, 2^k+d, 0, ULONG_MAX; constant or
+// advancing by one per read); the lattice is enumerated completely for unseeded -s vectors in its own section.
+// A documented vector must be accepted whatever the clock reads.
+// Applied verbosity: -vv is judged differentially - the same vector with every -vv replaced by -v, same registry,
+// same clock, must print strictly less on the console ("print internal information during test run").
 #include "verif.h"
 #include <climits>
 #include <string>
@@ -243,6 +251,54 @@ struct Seams {
     }
 };
 
+// ---------------------------------------------------------------- the millisecond clock, pinned per case
+static unsigned long g_clk_base = 0, g_clk_step = 0, g_clk_calls = 0;
+static unsigned long seam_clock() { return g_clk_base + g_clk_step * g_clk_calls++; }
+struct Clock { unsigned long long base; unsigned step; };
+struct ClockPin {
+    unsigned long (*saved_)();
+    explicit ClockPin(const Clock& k) : saved_(GetPlatformSpecificTimeInMillis) { set(k); GetPlatformSpecificTimeInMillis = seam_clock; }
+    ~ClockPin() { GetPlatformSpecificTimeInMillis = saved_; g_clk_base = g_clk_step = g_clk_calls = 0; }
+    static void set(const Clock& k) { g_clk_base = (unsigned long) k.base; g_clk_step = k.step; g_clk_calls = 0; }
+    static void rewind() { g_clk_calls = 0; }           // every parse of a case starts at the first reading
+};
+static const char* clock_class(unsigned long long v) {
+    unsigned long t = (unsigned long) v; unsigned long long lo = (unsigned long long) t & 0xFFFFFFFFull;
+    if (t == 0) return "zero";
+    if (lo == 0) return "nonzero_multiple_of_2p32";
+    if (lo == 0xFFFFFFFFull) return "low32_all_ones";
+    if (lo <= 2 && (unsigned long long) t > lo) return "just_above_multiple_of_2p32";
+    if (lo >= 0xFFFFFFFDull) return "just_below_multiple_of_2p32";
+    if ((unsigned long long) t <= 0xFFFFFFFFull) return "below_2p32";
+    return "above_2p32";
+}
+// the lattice of clock readings around every place where a width/sign conversion of the reading can bite
+static std::vector<unsigned long long> clock_lattice() {
+    std::set<unsigned long> seen; std::vector<unsigned long long> out;
+    auto add = [&](unsigned long long v) { unsigned long t = (unsigned long) v; if (seen.insert(t).second) out.push_back((unsigned long long) t); };
+    add(0); add(~0ull); add(1700000000000ull); add(1759500000123ull);
+    for (int k = 0; k < 64; k++) for (int d = -1; d <= 1; d++) add((1ull << k) + (unsigned long long) (long long) d);
+    const unsigned long long M[] = { 1, 2, 3, 5, 7, 403, 404, 65535, 65536, 65537, 0x7FFFFFFFull, 0x80000000ull, 0x80000001ull, 0xFFFFFFFEull, 0xFFFFFFFFull };
+    for (unsigned long long m : M) for (int d = -2; d <= 2; d++) add((m << 32) + (unsigned long long) (long long) d);
+    return out;
+}
+static Clock gen_clock(vf::Rng& r) {
+    Clock k; k.step = r.chance(30) ? 1 : 0;
+    int w = (int) r.below(100);
+    if (w < 35) k.base = 1600000000000ull + r.below(200000000000ull);                   // a real clock
+    else if (w < 60) {                                                                   // m * 2^32 + d
+        static const unsigned long long M[] = { 0, 1, 1, 2, 3, 403, 65536, 0x7FFFFFFFull, 0x80000000ull, 0xFFFFFFFFull };
+        unsigned long long m = r.chance(30) ? r.below(1ull << 32) : M[r.below(sizeof(M) / sizeof(M[0]))];
+        static const int D[] = { 0, 0, 0, 0, -1, -1, 1, -2, 2 };
+        k.base = (m << 32) + (unsigned long long) (long long) D[r.below(sizeof(D) / sizeof(D[0]))];
+    }
+    else if (w < 75) k.base = (1ull << r.below(64)) + (unsigned long long) (long long) r.range(-1, 1);
+    else if (w < 85) k.base = r.below(4);
+    else k.base = r.next();
+    k.base = (unsigned long long) (unsigned long) k.base;
+    return k;
+}
+
 // ================================================================ helpers
 static std::string join_args(const Args& a) { std::string s; for (const std::string& x : a) { s += x; s += '\x1f'; } return s; }
 static std::string args_json(const Args& a) { std::vector<std::string> v; for (const std::string& x : a) v.push_back(vf::jstr(x)); return vf::jarr(v); }
@@ -284,6 +340,7 @@ static std::string exp_filters_text(const std::vector<RefFilter>& v) {
 static bool real_parse_ok(const Args& a) {
     RawArgv raw = raw_make(a);
     bool ok;
+    ClockPin::rewind();
     { CommandLineArguments cla(raw.ac, raw.av); ok = cla.parse(NullTestPlugin::instance()); }
     raw_free(raw);
     return ok;
@@ -293,24 +350,72 @@ static Args items_to_args(const Args& a, const std::vector<Item>& items, size_t 
     for (size_t k = 0; k < items.size(); k++) { if (k >= first && k < last) for (int j = 0; j < items[k].consume; j++) out.push_back(a[pos + (size_t) j]); pos += (size_t) items[k].consume; }
     return out;
 }
-// names the smallest documented piece the real parser refuses: one option alone, else the shortest refused prefix
-static std::string rejection_key(const Args& a, const RefCfg& R) {
-    for (size_t k = 0; k < R.items.size(); k++) if (R.items[k].opt != "-h" && !real_parse_ok(items_to_args(a, R.items, k, k + 1))) return "alone:" + item_tag(R.items[k]);
+// names the smallest documented piece the real parser refuses: one option alone, else the shortest refused prefix;
+// *blamed = the option at which the refusal appears
+static std::string rejection_key(const Args& a, const RefCfg& R, std::string* blamed = nullptr) {
+    for (size_t k = 0; k < R.items.size(); k++) if (R.items[k].opt != "-h" && !real_parse_ok(items_to_args(a, R.items, k, k + 1))) { if (blamed) *blamed = item_tag(R.items[k]); return "alone:" + item_tag(R.items[k]); }
     for (size_t k = 1; k < R.items.size(); k++) {
-        if (!real_parse_ok(items_to_args(a, R.items, 0, k + 1))) return "after:" + item_tag(R.items[k - 1]) + "->" + item_tag(R.items[k]);
+        if (!real_parse_ok(items_to_args(a, R.items, 0, k + 1))) { if (blamed) *blamed = item_tag(R.items[k]); return "after:" + item_tag(R.items[k - 1]) + "->" + item_tag(R.items[k]); }
     }
+    if (blamed) *blamed = "whole-vector";
     return "whole-vector";
+}
+
+// ================================================================ one run of the real runner on a probe registry, all seams captured
+struct RunObs { std::vector<int> executed, listOrder; std::string console, filedata; std::vector<std::string> opened; int sepcalls = 0, fcloses = 0, rc = -1; };
+static void run_probe(const RawArgv& raw, const std::vector<ProbeSpec>& reg, RunObs& o) {
+    o.executed.reserve(256);
+    std::vector<UtestShell*> shells;
+    {
+        TestRegistry registry;
+        for (size_t i = 0; i < reg.size(); i++) {
+            UtestShell* s = reg[i].ignored ? (UtestShell*) new ProbeIgnoredShell(reg[i].group.c_str(), reg[i].name.c_str(), "probe_file.cpp", 100 + i, (int) i)
+                                           : (UtestShell*) new ProbeShell(reg[i].group.c_str(), reg[i].name.c_str(), "probe_file.cpp", 100 + i, (int) i);
+            shells.push_back(s); registry.addTest(s);
+        }
+        for (UtestShell* t = registry.getFirstTest(); t; t = t->getNext()) for (size_t i = 0; i < shells.size(); i++) if (shells[i] == t) o.listOrder.push_back((int) i);   // ids in the order of the registry's list
+        g_exec = &o.executed; g_console = &o.console; g_filedata = &o.filedata; g_opened = &o.opened; g_sepcalls = 0; g_fclose = 0;
+        ClockPin::rewind();
+        {
+            Seams seams;
+            {
+                CommandLineTestRunner runner(raw.ac, raw.av, &registry);
+                o.rc = runner.runAllTestsMain();
+            }
+        }
+        g_exec = nullptr; g_console = nullptr; g_filedata = nullptr; g_opened = nullptr;
+    }
+    o.sepcalls = g_sepcalls; o.fcloses = g_fclose;
+    for (UtestShell* s : shells) delete s;
 }
 
 // ================================================================ the judge
 enum Cls { CLS_MEANING, CLS_HOSTILE };
 
-static void judge(vf::Ctx& c, const Args& args, const std::vector<ProbeSpec>& reg, Cls cls) {
-    c.begin([=] { return vf::J().k("class", cls == CLS_MEANING ? "meaning" : "hostile").raw("argv", args_json(args)).raw("registry", reg_json(reg)).str(); });
+// key of a refused documented vector. When the refusal is a function of the clock reading (the same vector is accepted
+// under an unremarkable constant clock) the key names the option at which it appears, not the options in front of it:
+// which reading of an advancing clock is the fatal one depends on how many clock-reading options precede it.
+static std::string refusal_key(const Args& a, const RefCfg& R, const Clock& k) {
+    std::string blamed, key = rejection_key(a, R, &blamed);
+    Clock benign = { 1700000012345ull, 0 }; ClockPin::set(benign);
+    bool okBenign = real_parse_ok(a);
+    ClockPin::set(k);
+    return okBenign ? "documented-rejected:clock-dependent:" + blamed : "documented-rejected:" + key;
+}
+
+static void judge(vf::Ctx& c, const Args& args, const std::vector<ProbeSpec>& reg, Cls cls, const Clock* fixedClock = nullptr) {
+    // the clock reading is part of the case; drawn after the generators so that it is a pure function of (seed, section, index) too
+    const Clock clk = fixedClock ? *fixedClock : gen_clock(c.rng);
+    c.begin([=] { return vf::J().k("class", cls == CLS_MEANING ? "meaning" : "hostile").raw("argv", args_json(args)).raw("registry", reg_json(reg))
+                         .k("clock_ms", std::to_string(clk.base)).k("clock_step", (long long) clk.step).str(); });
+    ClockPin pin(clk);
+    const std::string clkText = " [clock reads " + std::to_string(clk.base) + (clk.step ? " advancing by 1 per reading" : " constant") + ", class " + clock_class(clk.base) + "]";
+    c.count(std::string("clock_") + clock_class(clk.base)); if (clk.step) c.count("clock_advancing");
     RefCfg R = ref_parse(args);
     bool refAccept = R.readings == 1 && !R.help, refHelp = R.readings == 1 && R.help;
     c.count(R.readings == 1 ? (R.help ? "ref_help" : "ref_documented_configuration") : R.readings == 0 ? "ref_outside_grammar" : "ref_ambiguous_reading");
     if (R.readings == 1) for (const Item& it : R.items) c.count("opt " + item_tag(it));
+    if (R.readings == 1) { bool unseeded = false; for (long long sd : R.seeds) if (sd < 0) unseeded = true; if (unseeded) c.count(std::string("unseeded_shuffle_vectors_clock_") + clock_class(clk.base)); }
 
     RawArgv raw = raw_make(args);
     bool ok = false; size_t realRepeat = 1;
@@ -327,10 +432,10 @@ static void judge(vf::Ctx& c, const Args& args, const std::vector<ProbeSpec>& re
             RefCfg P; P.items.assign(R.items.begin(), R.items.begin() + (long) h);
             Args prefix = items_to_args(args, R.items, 0, h);
             helpBlamed = true;
-            if (!ok && !real_parse_ok(prefix)) c.violation("documented-rejected:" + rejection_key(prefix, P), "the documented options in front of -h are refused (usage instead of help)");
+            if (!ok && !real_parse_ok(prefix)) c.violation(refusal_key(prefix, P, clk), "the documented options in front of -h are refused (usage instead of help)" + clkText);
             else c.violation("help-not-requested", std::string("documented vector containing -h: parse()=") + (ok ? "true" : "false") + " needHelp()=" + (a.needHelp() ? "true" : "false"));
         }
-        if (refAccept && !ok) { cfgAgrees = false; c.violation("documented-rejected:" + rejection_key(args, R), "every argument is a documented option with a value of its documented domain, but parse() returned false"); }
+        if (refAccept && !ok) { cfgAgrees = false; c.violation(refusal_key(args, R, clk), "every argument is a documented option with a value of its documented domain, but parse() returned false" + clkText); }
         if (refAccept && ok) {
             struct { const char* name; bool real, exp; const char* opt; } fl[] = {
                 { "isVerbose", a.isVerbose(), R.verbose, "-v" }, { "isVeryVerbose", a.isVeryVerbose(), R.veryVerbose, "-vv" }, { "isColor", a.isColor(), R.color, "-c" },
@@ -355,7 +460,12 @@ static void judge(vf::Ctx& c, const Args& args, const std::vector<ProbeSpec>& re
                     bool in = false; for (long long s : R.seeds) if ((size_t) s == a.getShuffleSeed()) in = true;
                     if (!in) { cfgAgrees = false; c.violation("seed-wrong:" + std::string(R.seeds.size() > 1 ? "multiple" : "single"), "getShuffleSeed()=" + std::to_string(a.getShuffleSeed()) + " is none of the given seeds (last given: " + std::to_string(R.seeds.back()) + ")"); }
                     c.count("seed_given_checked");
-                } else { c.count("seed_from_clock_not_judged"); if (a.getShuffleSeed() == 0) c.count("seed_from_clock_zero"); }
+                } else {
+                    // which value the clock yields is not documented; that the vector is accepted whatever it reads is judged above
+                    c.count("seed_from_clock_not_judged"); if (a.getShuffleSeed() == 0) c.count("seed_from_clock_zero");
+                    c.count(std::string("unseeded_shuffle_accepted_clock_") + clock_class(clk.base));
+                    if ((unsigned long long) a.getShuffleSeed() == ((unsigned long long) (unsigned long) clk.base & 0xFFFFFFFFull)) c.count("seed_from_clock_is_low32_of_first_reading");
+                }
             }
             // output kind
             {
@@ -405,32 +515,12 @@ static void judge(vf::Ctx& c, const Args& args, const std::vector<ProbeSpec>& re
     bool runIt = realRepeat <= 8;
     if (!runIt) c.count("runner_skipped_large_repeat");
     if (runIt) {
-        std::vector<int> executed; executed.reserve(256);
-        std::string console, filedata; std::vector<std::string> opened;
-        std::vector<UtestShell*> shells;
-        std::vector<int> listOrder;               // ids in the order of the registry's list
+        RunObs obs; run_probe(raw, reg, obs);
+        std::vector<int>& executed = obs.executed; std::string& console = obs.console; std::string& filedata = obs.filedata;
+        std::vector<std::string>& opened = obs.opened; std::vector<int>& listOrder = obs.listOrder;
         std::string usageText, helpText;
-        int rc = -1;
-        {
-            TestRegistry registry;
-            for (size_t i = 0; i < reg.size(); i++) {
-                UtestShell* s = reg[i].ignored ? (UtestShell*) new ProbeIgnoredShell(reg[i].group.c_str(), reg[i].name.c_str(), "probe_file.cpp", 100 + i, (int) i)
-                                               : (UtestShell*) new ProbeShell(reg[i].group.c_str(), reg[i].name.c_str(), "probe_file.cpp", 100 + i, (int) i);
-                shells.push_back(s); registry.addTest(s);
-            }
-            for (UtestShell* t = registry.getFirstTest(); t; t = t->getNext()) for (size_t i = 0; i < shells.size(); i++) if (shells[i] == t) listOrder.push_back((int) i);
-            g_exec = &executed; g_console = &console; g_filedata = &filedata; g_opened = &opened; g_sepcalls = 0; g_fclose = 0;
-            {
-                Seams seams;
-                {
-                    CommandLineTestRunner runner(raw.ac, raw.av, &registry);
-                    rc = runner.runAllTestsMain();
-                }
-            }
-            g_exec = nullptr; g_console = nullptr; g_filedata = nullptr; g_opened = nullptr;
-            { CommandLineArguments t(1, raw.av); usageText = t.usage(); helpText = t.help(); }
-        }
-        int sepcalls = g_sepcalls;
+        { CommandLineArguments t(1, raw.av); usageText = t.usage(); helpText = t.help(); }
+        int sepcalls = obs.sepcalls;
         c.count("runner_runs"); c.count("probe_tests_executed", executed.size());
         bool printedUsage = contains(console, usageText), printedHelp = contains(console, helpText);
 
@@ -505,7 +595,7 @@ static void judge(vf::Ctx& c, const Args& args, const std::vector<ProbeSpec>& re
                     if (!opened.empty() && contains(console, "##teamcity[")) c.violation("apply:output-kind-wrong:both", "files written and teamcity messages printed");
                     c.count(std::string("output_kind_applied_") + KN[expKindSingle]);
                     if (expKindSingle == 1) {
-                        if ((int) opened.size() != g_fclose) c.count("junit_open_close_mismatch");
+                        if ((int) opened.size() != obs.fcloses) c.count("junit_open_close_mismatch");
                         bool pkSingle = std::set<std::string>(R.packages.begin(), R.packages.end()).size() <= 1;
                         if (pkSingle) {
                             std::string prefix = "cpputest_" + (R.packages.empty() ? std::string() : R.packages[0] + "_");
@@ -522,15 +612,32 @@ static void judge(vf::Ctx& c, const Args& args, const std::vector<ProbeSpec>& re
                             c.count("junit_file_names_checked", opened.size());
                         }
                     }
-                    if (expKindSingle == 0) {
-                        if ((R.verbose || R.veryVerbose) && !executed.empty()) {
-                            for (int id : once) {
-                                std::string nm = "TEST(" + reg[(size_t) id].group + ", " + reg[(size_t) id].name + ")";
-                                if (!contains(console, nm)) { c.violation(R.verbose ? "apply:verbose-not-applied" : "apply:very-verbose-not-applied", "test name " + nm + " not printed"); break; }
-                            }
-                            c.count("verbose_output_checked");
-                            if (R.veryVerbose) c.count(contains(console, "before runTest") ? "very_verbose_internal_info_seen" : "very_verbose_internal_info_not_seen");
+                    // verbosity as applied: on the console, which also exists next to the junit files when -v / -vv is given
+                    if ((expKindSingle == 0 || expKindSingle == 1) && (R.verbose || R.veryVerbose) && !executed.empty()) {
+                        const std::string where = expKindSingle == 1 ? " (console next to the junit files)" : "";
+                        for (int id : once) {
+                            std::string nm = "TEST(" + reg[(size_t) id].group + ", " + reg[(size_t) id].name + ")";
+                            if (!contains(console, nm)) { c.violation(std::string(R.verbose ? "apply:verbose-not-applied" : "apply:very-verbose-not-applied") + "", "test name " + nm + " not printed" + where); break; }
                         }
+                        c.count("verbose_output_checked"); if (expKindSingle == 1) c.count("verbose_output_checked_junit_composite");
+                        if (R.veryVerbose) {
+                            // -vv: "print internal information during test run", whatever else is given (-v included). Judged without
+                            // knowing the wording of that information: the same vector with every -vv replaced by -v (the same
+                            // documented configuration one verbosity level down), same registry, same clock readings, must print strictly less.
+                            Args lower = args; for (std::string& x : lower) if (x == "-vv") x = "-v";
+                            RawArgv lraw = raw_make(lower); RunObs lo; run_probe(lraw, reg, lo); raw_free(lraw);
+                            std::vector<int> le = lo.executed, ge = executed; std::sort(le.begin(), le.end()); std::sort(ge.begin(), ge.end());
+                            if (le == ge) {
+                                if (console.size() <= lo.console.size())
+                                    c.violation(std::string("apply:very-verbose-no-internal-information:") + (R.verbose ? "-v-and--vv-given" : "-vv-alone"),
+                                                "console output of the -vv run (" + std::to_string(console.size()) + " bytes) is not longer than that of the same vector with -v in place of -vv (" + std::to_string(lo.console.size()) + " bytes)" + where);
+                                c.count("very_verbose_differential_checked"); if (R.verbose) c.count("very_verbose_differential_checked_with_v_too");
+                                if (expKindSingle == 1) c.count("very_verbose_differential_checked_junit_composite");
+                            } else c.count("very_verbose_differential_runs_differ_not_judged");
+                            c.count(contains(console, "before runTest") ? "very_verbose_internal_info_seen" : "very_verbose_internal_info_not_seen");
+                        }
+                    }
+                    if (expKindSingle == 0) {
                         if (R.color) { if (!contains(console, "\033[")) c.violation("apply:color-not-applied", "no ANSI colour sequence in the console output"); c.count("color_output_checked"); }
                         if (realRepeat > 1 && !contains(console, "Test run " + std::to_string(realRepeat) + " of " + std::to_string(realRepeat))) c.count("repeat_banner_not_seen");
                     }
@@ -543,8 +650,6 @@ static void judge(vf::Ctx& c, const Args& args, const std::vector<ProbeSpec>& re
         } else {
             c.count("outside_grammar_accepted_runs");
         }
-        (void) rc;
-        for (UtestShell* s : shells) delete s;
     }
     raw_free(raw);
 
@@ -627,6 +732,15 @@ static Args gen_meaning(vf::Rng& r, bool allowReject) {
     if (r.chance(2)) n = 0;
     for (int i = 0; i < n; i++) gen_item(a, r, allowReject);
     if (r.chance(15) && !a.empty()) { size_t i = r.below(a.size()); a.push_back(a[i]); }        // doubled argument
+    if (r.chance(12) && !a.empty()) {
+        // a second option that acts on the same applied setting as one already present, at any position
+        static const char* SIB[][2] = { { "-v", "-vv" }, { "-vv", "-v" }, { "-e", "-ci" }, { "-ci", "-e" }, { "-b", "-s" }, { "-s", "-b" }, { "-lg", "-ln" }, { "-ln", "-ll" }, { "-ll", "-lg" },
+                                        { "-ojunit", "-v" }, { "-ojunit", "-vv" }, { "-p", "-vv" }, { "-ri", "-vv" }, { "-r", "-s" }, { "-c", "-vv" } };
+        size_t i = r.below(a.size()); const char* sib = nullptr;
+        for (auto& p : SIB) if (a[i] == p[0] && (!sib || r.chance(50))) sib = p[1];
+        if (!sib) sib = r.chance(50) ? "-vv" : "-s";
+        a.insert(a.begin() + (long) r.below(a.size() + 1), sib);
+    }
     return a;
 }
 
@@ -694,6 +808,23 @@ static void init_trunc() {
 }
 static void sec_trunc(vf::Ctx& c) { judge(c, g_trunc[(size_t) c.idx], fixed_registry(), CLS_HOSTILE); }
 
+// ---------------------------------------------------------------- finite: vectors whose configuration reads the clock x the clock lattice
+// (every place where the reading's 64 -> 32 bit truncation, its zero test or its sign could bite, constant and advancing clock)
+static std::vector<Args> g_clockvecs; static std::vector<unsigned long long> g_lattice;
+static void init_clock() {
+    g_lattice = clock_lattice();
+    const Args V[] = { { "-s" }, { "-s", "-v" }, { "-v", "-s" }, { "-b", "-r2", "-s" }, { "-s", "-sg", "Net" }, { "-s", "-s" }, { "-s", "-s7" }, { "-s7", "-s" }, { "-s", "-p" },
+                       { "-s", "-ojunit" }, { "-vv", "-s", "-v" }, { "-s", "TEST(Net, open)" }, { "-s", "-ln" }, { "-r", "-s" },
+                       { "-s", "7" }, { "-s7" }, { "-r3" }, { "-v" } };          // the last four: controls that do not depend on the clock
+    for (const Args& v : V) g_clockvecs.push_back(v);
+}
+static void sec_clock_lattice(vf::Ctx& c) {
+    size_t nv = g_clockvecs.size(); uint64_t i = c.idx;
+    size_t v = (size_t) (i % nv); i /= nv; unsigned step = (unsigned) (i % 2); i /= 2;
+    Clock k = { g_lattice[(size_t) i], step };
+    judge(c, g_clockvecs[v], fixed_registry(), CLS_MEANING, &k);
+}
+
 // ---------------------------------------------------------------- hostile: arbitrary bytes
 static std::string rand_bytes(vf::Rng& r, int lo, int hi) {
     static const char HOT[] = "-(),. TESTIGNORE_gnstxkrpolhvcbfei0123456789+";
@@ -747,11 +878,12 @@ static void sec_hostile_mut(vf::Ctx& c) {
 }
 
 int main(int argc, char** argv) {
-    init_forms(); init_trunc();
-    uint64_t nf = g_forms.size();
+    init_forms(); init_trunc(); init_clock();
+    uint64_t nf = g_forms.size(), nc = (uint64_t) g_clockvecs.size() * 2 * g_lattice.size();
     std::vector<vf::Section> S = {
         { "option_form_pairs", nf * (nf + 1), nf * (nf + 1), sec_form_pairs, true },
         { "truncations_and_malformed", g_trunc.size(), g_trunc.size(), sec_trunc, true },
+        { "clock_lattice_x_clock_reading_vectors", nc, nc, sec_clock_lattice, true },
         { "meaning_random", 60000, 700000, sec_meaning, false },
         { "filters_random", 20000, 300000, sec_filters, false },
         { "hostile_bytes", 30000, 400000, sec_hostile_bytes, false },
